@@ -8,7 +8,8 @@ BMIM CG→AA / BF4 AA→CG pairs) and driven through a random history of calls (
 rejected), coordinate mutations of the construction molecules / arguments / earlier results, and
 copies; the same history goes to the Lean heap model as one `heapseq` request and outcomes,
 frame-table keys, equivalences and the observation of every live object are compared after every
-operation.
+operation.  The model runs `call (concreteGeo s)` (GMModel/EMapGeo.lean: the numeric model of
+C01-C03) at Float, so the coordinates of every returned molecule are compared with the model at 1e-9.
 
 Oracle (the property's clauses on the implementation):
   fresh        the result of every accepted call is bit-identical to what a map freshly built from
@@ -462,8 +463,13 @@ def evaluate(ctx, case):
             ctx.disagree(case, "heapseq", "ok", status)
             return
         try:
-            hg.compare_with_model(ctx, case, w, toks, TOL, "C04 heap model", extra_cb=extra_cb,
-                                  stop=lambda: getattr(w, "skip", False))
+            ok = hg.compare_with_model(ctx, case, w, toks, TOL, "C04 heap model", extra_cb=extra_cb,
+                                       stop=lambda: getattr(w, "skip", False))
+            if ok and not getattr(w, "skip", False):
+                # every accepted call's returned coordinates were compared with
+                # `call (concreteGeo s)` evaluated in the model at Float (tolerance 1e-9)
+                ctx.count("model:returned-coordinates-compared",
+                          sum(1 for o, st in zip(w.ops, w.status) if o.startswith("call ") and st == "ok"))
         except IndexError:
             ctx.disagree(case, "C04 heap model: response truncated", len(w.ops), "fewer")
     ctx.model.ask("heapseq", w.request(), cb, case)
